@@ -2275,7 +2275,7 @@ func listStyleType_(tokens []Token) (out pr.CounterStyleID, ok bool) {
 	case pa.String:
 		return pr.CounterStyleID{Type: "string", Name: token.Value}, true
 	case pa.FunctionBlock:
-		if token.Name != "symbols" {
+		if utils.AsciiLower(token.Name) != "symbols" {
 			return out, false
 		}
 		functionArguments := pa.RemoveWhitespace(token.Arguments)
